@@ -422,22 +422,30 @@ def thorough_gir(prop: str, run) -> Optional[dict]:
                     if nm.split("::")[-1] not in tree_names:
                         continue  # not a function of this code base (std / third-party niebloids, macros): outside the rules' vocabulary
                     res["g1_missing_in_gir"].append(f"{rel}::{qual}: SRC saw a call `{nm}` that GCC does not place in L{a}-{b}")
-                if res.get("positive_control") is None:
-                    # positive control (every run): hide one call the parser DID see and make sure the G2 comparison reports it
-                    cand = [nm for nm, c in sorted(gir_calls.items()) if nm in src_calls and c.callee.startswith("hgraph::") and
-                            not GIR_IGNORE_BASE.fullmatch(nm) and nm not in default_init_calls and
-                            not (_base(c.callee[:len(c.callee) - len(_tail(c.callee))].rstrip(":")) == _base(c.callee))]
-                    if cand:
-                        res["positive_control"] = {"function": f"{rel}::{qual}", "hidden_call": cand[0], "reported": True}
-                for nm, c in sorted(gir_calls.items()):
-                    if nm in src_calls or not nm or GIR_IGNORE_BASE.fullmatch(nm) or nm in default_init_calls:
-                        continue
-                    if not c.callee.startswith(("hgraph::", "*")):
-                        continue
-                    owner = c.callee[:len(c.callee) - len(_tail(c.callee))].rstrip(":")
-                    if owner and _base(owner) == _base(c.callee):
-                        continue  # constructor: SRC models construction as a declaration / brace-init, not as a call
-                    res["g2_missing_in_src"].append(f"{rel}:{c.line}:{c.col}: GCC calls `{c.callee}` inside {qual}, the SRC parser saw no call named `{nm}`")
+                def g2_for(seen: Dict[str, int]) -> List[str]:
+                    out_: List[str] = []
+                    for nm, c in sorted(gir_calls.items()):
+                        if nm in seen or not nm or GIR_IGNORE_BASE.fullmatch(nm) or nm in default_init_calls:
+                            continue
+                        if not c.callee.startswith(("hgraph::", "*")):
+                            continue
+                        owner = c.callee[:len(c.callee) - len(_tail(c.callee))].rstrip(":")
+                        if owner and _base(owner) == _base(c.callee):
+                            continue  # constructor: SRC models construction as a declaration / brace-init, not as a call
+                        out_.append(f"{rel}:{c.line}:{c.col}: GCC calls `{c.callee}` inside {qual}, the SRC parser saw no call named `{nm}`")
+                    return out_
+                real = g2_for(src_calls)
+                res["g2_missing_in_src"].extend(real)
+                if res.get("positive_control") is None and not real:
+                    # positive control (every run): hide one call the parser DID see; the same comparison must now report it
+                    for nm in sorted(src_calls):
+                        if nm not in gir_calls:
+                            continue
+                        hidden = {k: v for k, v in src_calls.items() if k != nm}
+                        got = g2_for(hidden)
+                        if got:
+                            res["positive_control"] = {"function": f"{rel}::{qual}", "hidden_call": nm, "reported": any(f"`{nm}`" in x for x in got)}
+                            break
     finally:
         shutil.rmtree(scratch, ignore_errors=True)
     if res["functions_checked"] and res.get("positive_control") is None:
